@@ -26,6 +26,7 @@ import GunYu.Proofs.RdbFanout
 import GunYu.Proofs.RdbFrame
 import GunYu.Proofs.Crc64Burst
 import GunYu.Model.RdbAlloc
+import GunYu.Model.RdbFeed
 
 namespace GunYu.Props.C04
 open GunYu
@@ -505,8 +506,99 @@ theorem altered_never_recorded_model (maxVer : Nat) (f : Bytes) (n i : Nat) (b :
     obtain ⟨m, hm, _⟩ := recorded_only_if_parsed_and_applied _ maxVer _ junk items hfeed c hn sched (Or.inr hr)
     exact absurd hm (hnd m)
 
+/-! the transcript, path by path (`RdbFeed.chanWith`): after a footer error the goroutine sends `Err` AND THEN `Done`.
+    It is an instance of `feed` (junk = [Done]), so nothing that ends in a footer error is ever recorded. -/
+
+def chanFeed (it : RdbFrame.Rd RdbFrame.Item) (maxVer : Nat) (f : Bytes) : Option (List (Item Nat)) :=
+  (RdbFeed.chanWith it maxVer f).map (fun p => (List.range p.1).map Item.entry ++ p.2.map Item.term)
+
+theorem bodyChan_agrees (it : RdbFrame.Rd RdbFrame.Item) :
+    ∀ (fuel : Nat) (all xs : Bytes) (cnt n : Nat) (ts : List Term),
+      RdbFeed.bodyChan it fuel all xs cnt = some (n, ts) →
+        (ts = [.done] ∧ RdbFrame.bodyWith it fuel all xs cnt = .done n) ∨
+        ((ts = [.err] ∨ ts = [.err, .done]) ∧ RdbFrame.bodyWith it fuel all xs cnt = .err n)
+  | 0, _, _, _, _, _, h => by simp [RdbFeed.bodyChan] at h
+  | fuel+1, all, xs, cnt, n, ts, h => by
+    unfold RdbFeed.bodyChan at h
+    unfold RdbFrame.bodyWith
+    cases hi : it xs with
+    | err => rw [hi] at h; simp only [Option.some.injEq, Prod.mk.injEq] at h; obtain ⟨rfl, rfl⟩ := h; simp
+    | unsup => rw [hi] at h; cases h
+    | ok a rest =>
+      rw [hi] at h
+      cases a with
+      | entry => exact bodyChan_agrees it fuel all rest (cnt + 1) n ts h
+      | other => exact bodyChan_agrees it fuel all rest cnt n ts h
+      | eofOp =>
+        simp only at h ⊢
+        have hf : RdbFrame.footer all rest cnt = .done cnt ∨ RdbFrame.footer all rest cnt = .err cnt := by
+          unfold RdbFrame.footer; split
+          · split
+            · exact Or.inr rfl
+            · split
+              · exact Or.inr rfl
+              · exact Or.inl rfl
+          · exact Or.inr rfl
+        rcases hf with hf | hf
+        · rw [hf] at h ⊢; simp only [Option.some.injEq, Prod.mk.injEq] at h; obtain ⟨rfl, rfl⟩ := h; simp
+        · rw [hf] at h ⊢; simp only [Option.some.injEq, Prod.mk.injEq] at h; obtain ⟨rfl, rfl⟩ := h; simp
+
+theorem chanFeed_is_feed (it : RdbFrame.Rd RdbFrame.Item) (maxVer : Nat) (f : Bytes) (items : List (Item Nat))
+    (h : chanFeed it maxVer f = some items) : ∃ junk, feed it maxVer f junk = some items := by
+  unfold chanFeed RdbFeed.chanWith at h
+  unfold feed RdbFrame.parseWith
+  cases hh : RdbFrame.header maxVer f with
+  | unsup => rw [hh] at h; simp at h
+  | err =>
+    rw [hh] at h; simp only [Option.map_some, Option.some.injEq] at h; subst h
+    exact ⟨[], by simp [parserOutput]⟩
+  | ok u rest =>
+    rw [hh] at h
+    simp only at h ⊢
+    cases hb : RdbFeed.bodyChan it (rest.length + 1) f rest 0 with
+    | none => rw [hb] at h; simp at h
+    | some p =>
+      obtain ⟨n, ts⟩ := p
+      rw [hb] at h; simp only [Option.map_some, Option.some.injEq] at h; subst h
+      rcases bodyChan_agrees it _ _ _ _ n ts hb with ⟨rfl, hd⟩ | ⟨hts, he⟩
+      · exact ⟨[], by rw [hd]; simp [parserOutput]⟩
+      · rcases hts with rfl | rfl
+        · exact ⟨[], by rw [he]; simp [parserOutput]⟩
+        · exact ⟨[Item.term .done], by rw [he]; simp [parserOutput]⟩
+
+/-- **from bytes to checkpoint, with the goroutine's transcript spelled out** (incl. Err-then-Done after a bad footer) -/
+theorem recorded_only_if_parsed_and_applied_chan (it : RdbFrame.Rd RdbFrame.Item) (maxVer : Nat) (f : Bytes)
+    (items : List (Item Nat)) (hfeed : chanFeed it maxVer f = some items)
+    (c : Cfg Nat) (hn : 0 < c.n) (sched : List Ev)
+    (h : (run c (init items) sched).checkpoint = true ∨ (run c (init items) sched).ret = some .ok) :
+    ∃ n, RdbFrame.parseWith it maxVer f = .done n ∧ ∀ a, a < n → a ∈ (run c (init items) sched).applied := by
+  obtain ⟨junk, hj⟩ := chanFeed_is_feed it maxVer f items hfeed
+  exact recorded_only_if_parsed_and_applied it maxVer f junk items hj c hn sched h
+
 /-! non-vacuity: the example file of Part 2 through the example schedules of Part 1 -/
 example : feed RdbFrame.item 13 exFile [] = some (parserOutput [0, 1] .done []) := by decide +kernel
+-- a footer that does not match: Err, then Done — never recorded (instance of the theorem, every schedule)
+example : chanFeed RdbFrame.item 13 (exFile.set (exFile.length - 1) 0) = some [Item.entry 0, Item.entry 1, Item.term .err, Item.term .done] := by
+  decide +kernel
+example (c : Cfg Nat) (hn : 0 < c.n) (sched : List Ev) :
+    (run c (init [Item.entry 0, Item.entry 1, Item.term .err, Item.term .done]) sched).checkpoint = false := by
+  cases hc : (run c (init [Item.entry 0, Item.entry 1, Item.term .err, Item.term .done]) sched).checkpoint with
+  | false => rfl
+  | true =>
+    obtain ⟨n, hp, _⟩ := recorded_only_if_parsed_and_applied_chan RdbFrame.item 13 (exFile.set (exFile.length - 1) 0) _
+      (by decide +kernel) c hn sched (Or.inl hc)
+    have he : RdbFrame.parseWith RdbFrame.item 13 (exFile.set (exFile.length - 1) 0) = .err 2 := by decide +kernel
+    rw [he] at hp; cases hp
+-- in-file instances of the two "never recorded" theorems (reader `itemT`, every cut / every altered byte)
+example (k : Nat) (hk : k < exFile.length) : ∃ items, feed itemT 13 (exFile.take k) [] = some items ∧
+    ∀ (c : Cfg Nat), 0 < c.n → ∀ sched : List Ev,
+      (run c (init items) sched).checkpoint = false ∧ (run c (init items) sched).ret ≠ some .ok :=
+  truncated_never_recorded itemT itemT_good 13 exFile 2 (by decide +kernel) k hk []
+example (i : Nat) (b : UInt8) (hi : i < exFile.length - 8) (hb : exFile[i]? ≠ some b) :
+    ∃ items, feed itemT 13 (exFile.set i b) [] = some items ∧
+    ∀ (c : Cfg Nat), 0 < c.n → ∀ sched : List Ev,
+      (run c (init items) sched).checkpoint = false ∧ (run c (init items) sched).ret ≠ some .ok :=
+  altered_never_recorded itemT itemT_good itemT_total 13 exFile 2 i b (by decide +kernel) (by decide +kernel) hi hb []
 example : feed RdbFrame.item 13 (exFile.take 20) [] = some (parserOutput [0] .err []) := by decide +kernel
 example : feed itemT 13 (exFile.set 19 3) [Item.term .done] = some (parserOutput [0] .err [Item.term .done]) := by
   decide +kernel
@@ -588,6 +680,56 @@ theorem fieldsAlloc_bounded (numFields : Int) (lp c : Nat) (h : fieldsAlloc numF
   · cases h
   · simp only [Option.some.injEq, Int.ofNat_eq_natCast] at *; omega
 
+/-- **what ReadBytes asks of the allocator** (not only the length it returns): with
+    any `append` growth policy that at most doubles, no single request — the
+    initial capacity, a chunk, a re-allocation — exceeds twice (bytes present + one
+    step), whatever the length field says -/
+theorem growC_le (g : Nat → Nat → Nat) (hg : GrowOK g) (step n avail : Nat) :
+    ∀ (fuel len cap mx : Nat), len ≤ avail → cap ≤ 2 * (avail + step) → mx ≤ 2 * (avail + step) →
+      growC g step n avail fuel len cap mx ≤ 2 * (avail + step)
+  | 0, len, cap, mx, _, _, h3 => by simp only [growC]; exact h3
+  | fuel+1, len, cap, mx, h1, h2, h3 => by
+    simp only [growC]
+    split
+    · have hk : min (n - len) step ≤ step := Nat.min_le_right _ _
+      have hreq : (if len + min (n - len) step ≤ cap then 0 else g cap (len + min (n - len) step)) ≤ 2 * (avail + step) := by
+        split
+        · omega
+        · rename_i hc
+          have := hg.le cap (len + min (n - len) step)
+          have hm : max cap (len + min (n - len) step) = len + min (n - len) step := by omega
+          rw [hm] at this; omega
+      have hcap : (if len + min (n - len) step ≤ cap then cap else g cap (len + min (n - len) step)) ≤ 2 * (avail + step) := by
+        split
+        · exact h2
+        · rename_i hc
+          have := hg.le cap (len + min (n - len) step)
+          have hm : max cap (len + min (n - len) step) = len + min (n - len) step := by omega
+          rw [hm] at this; omega
+      have hmx : max (max mx (min (n - len) step))
+          (if len + min (n - len) step ≤ cap then 0 else g cap (len + min (n - len) step)) ≤ 2 * (avail + step) := by
+        omega
+      split
+      · exact growC_le g hg step n avail fuel _ _ _ (by assumption) hcap hmx
+      · exact hmx
+    · exact h3
+
+theorem readBytes_requests_bounded (g : Nat → Nat → Nat) (hg : GrowOK g) (step n avail : Nat) :
+    readBytesMaxReq g step n avail ≤ 2 * (avail + step) := by
+  unfold readBytesMaxReq
+  split
+  · omega
+  · exact growC_le g hg step n avail (n + 1) 0 step step (by omega) (by omega) (by omega)
+
+theorem lzfAlloc32_bounded (outlen inBytes c : Nat) (h : lzfAlloc32 outlen inBytes = some c) :
+    c ≤ 264 * inBytes ∧ c < 4294967296 := by
+  unfold lzfAlloc32 at h
+  refine ⟨lzfAlloc_bounded _ _ _ h, ?_⟩
+  unfold lzfAlloc at h
+  split at h
+  · cases h
+  · simp only [Option.some.injEq, Int.ofNat_eq_natCast] at *; omega
+
 /-- **memory, as far as a theorem reaches** (`_partial`): each of the three buffers
     that pkg/rdb sizes by a field of the input is bounded by a linear function of
     the bytes that are actually present (+ one 64 MiB step for ReadBytes) — no
@@ -598,11 +740,13 @@ theorem fieldsAlloc_bounded (numFields : Int) (lp c : Nat) (h : fieldsAlloc numF
     across entries by the pipeline, and wall-clock time — `parse_total` bounds
     the steps of the frame MODEL by the input length; a loop of a value decoder
     that does not advance (D23) is outside it. -/
-theorem alloc_bounded_partial (step n avail : Nat) (outlen numFields : Int) (inBytes lp : Nat) :
+theorem alloc_bounded_partial (g : Nat → Nat → Nat) (hg : GrowOK g) (step n avail : Nat) (outlen numFields : Int) (inBytes lp : Nat) :
     (readBytes step n avail).1 ≤ avail + step ∧
+    readBytesMaxReq g step n avail ≤ 2 * (avail + step) ∧
     (∀ c, lzfAlloc outlen inBytes = some c → c ≤ 264 * inBytes) ∧
     (∀ c, fieldsAlloc numFields lp = some c → c ≤ lp) :=
-  ⟨(readBytes_alloc_bounded step n avail).1, fun c h => lzfAlloc_bounded outlen inBytes c h,
+  ⟨(readBytes_alloc_bounded step n avail).1, readBytes_requests_bounded g hg step n avail,
+   fun c h => lzfAlloc_bounded outlen inBytes c h,
    fun c h => fieldsAlloc_bounded numFields lp c h⟩
 
 /-! non-vacuity: the D22 witness (a 2^40 length over 10 bytes), an honest large string, the D32 witness -/
@@ -613,6 +757,13 @@ example : readBytes 64 10 3 = (10, false) := by decide
 example : fieldsAlloc 1768326401 46 = none := by decide
 example : fieldsAlloc 1 46 = some 1 := by decide
 example : lzfAlloc 40 5 = some 40 ∧ lzfAlloc 1321 5 = none := by decide
+/-- the LZF bound as it is: linear, 264 per compressed byte, and below 4 GiB per string — which IS reached from 16.3 MB -/
+example : lzfAlloc32 4294967295 16268816 = some 4294967295 := by decide +kernel
+/-- a growth policy that doubles satisfies `GrowOK`; the D22 witness then asks for at most the initial 64 MiB -/
+def growDouble (c m : Nat) : Nat := 2 * max c m
+theorem growDouble_ok : GrowOK growDouble := ⟨fun c m => by unfold growDouble; omega, fun c m => Nat.le_refl _⟩
+example : readBytesMaxReq growDouble 64 1000000 10 = 64 := by decide +kernel
+example : readBytesMaxReq growDouble 64 200 200 = 256 := by decide +kernel
 
 end Alloc
 
